@@ -910,8 +910,19 @@ class Interp:
                     else:
                         d, conflict = dim_unify(cur.dim, v.dim)
                         if conflict and dim_known(dim_collapse(cur.dim)) and dim_known(dim_collapse(v.dim)):
-                            self.dimconflict(st, node, cur, v, "store into array")
-                            d = cur.dim
+                            first_ = idx.items[0] if (idx.kind == "indextuple" and idx.items) else idx
+                            fixed_row = (first_.has_const() and isinstance(first_.const, int) and not isinstance(first_.const, bool)) or (
+                                first_.kind == "slice" and first_.extra is not None and first_.extra.step is None
+                                and not (first_.extra.lower is None and first_.extra.upper is None)
+                                and all(b_ is None or isinstance(b_, ast.Constant) or (isinstance(b_, ast.UnaryOp) and isinstance(b_.operand, ast.Constant))
+                                        for b_ in (first_.extra.lower, first_.extra.upper)))
+                            if fixed_row:
+                                # a block of rows at a fixed position gets a quantity of another kind than the other rows (the plane
+                                # constraint under the vertex equations of a linear system): a heterogeneous table, never a report
+                                d = TOP
+                            else:
+                                self.dimconflict(st, node, cur, v, "store into array")
+                                d = cur.dim
                     newel = join_vals(cur.elem, v) if cur.kind in ("list", "dict") else cur.elem
                     mapping = cur.mapping
                     if cur.kind == "dict" and idx.has_const() and isinstance(idx.const, str):
@@ -1295,6 +1306,14 @@ class Interp:
                 which = "head" if (lo_v is None and hi_v == -1) else ("tail" if (lo_v == 1 and hi_v is None) else None)
                 if which:
                     out = out.copy(tags=out.tags | {("chain", self.val_id(base), which)})
+                rest_full = idx.kind != "indextuple" or all(i_.kind == "slice" and i_.extra is not None and i_.extra.lower is None
+                                                            and i_.extra.upper is None and i_.extra.step is None for i_ in idx.items[1:])
+                if rest_full and (lo_v is None or isinstance(lo_v, int)) and (hi_v is None or isinstance(hi_v, int)) and not (lo_v is None and hi_v is None):
+                    # x[k:] / x[:k]: a block of consecutive rows (np.concatenate((x[k:], x[:k])) is the rotation np.roll(x, -k))
+                    bid = ("al",) + tuple(sorted(base.al)) if base.al else self.val_id(base)     # (two reads of one state array are one base)
+                    self._slice_bases = getattr(self, "_slice_bases", {})
+                    self._slice_bases[bid] = base
+                    out = out.copy(tags=out.tags | {("rowslice", bid, lo_v, hi_v)})
         if "hull" in base.tags and out is not base and not out.has_const() and "hull" not in out.tags:
             out = out.copy(tags=out.tags | {"hull"})        # rows / slices of qhull's own output keep that provenance
         if out is not base and getattr(out, "tr", None) is None and base.kind in ("arr", "unknown", "idx", "float") and not out.has_const():
@@ -1615,6 +1634,10 @@ class Interp:
             out.tags = out.tags | {"square-of"}
         if isinstance(op, ast.Pow) and r.is_number_const() and r.const == 2 and out.kind in ("arr", "unknown"):
             out.tags = out.tags | {"square-of"}
+        if isinstance(op, ast.Mult) and l is r and out.kind in ("arr", "unknown"):
+            out.tags = out.tags | {"square-of"}                # x * x
+        if isinstance(op, ast.Add) and out.kind in ("arr", "unknown") and (l.tags & {"square-of", "sumsq"}) and (r.tags & {"square-of", "sumsq"}):
+            out.tags = out.tags | {"sumsq"}                    # a sum of squares, written out component by component
         if l.kind == "set" or r.kind == "set":
             out.tags = out.tags | ret_tags(l, r)        # set algebra keeps the provenance of its operands
         if l.kind in ("int", "float") and r.kind in ("int", "float") and out.kind in ("int", "float") and not out.has_const():
